@@ -278,6 +278,34 @@ Theorem maxconns_unlimited : forall n scripts sched,
 Proof. exact maxconns_unlimited_l. Qed.
 Print Assumptions maxconns_unlimited.
 
+(* ctx_cancel_changes_no_capacity.  A holder's context (the request context of a MaxConns
+   request: net/http cancels it when the client goes away) may be cancelled at any moment, by
+   anybody, while the handler is inside the guarded region and STAYS inside.  Step level (any
+   state): the cancellation is a stutter step for the limit - no permit, no counter, no other
+   thread moves; the handler keeps its permit until it returns. *)
+Theorem ctx_cancel_changes_no_capacity : forall s t th k,
+  nth_error (lthreads s) t = Some th -> t < length (lthreads s) -> lpcof th = LIdle ->
+  lcur th = Some (LCancel k) ->
+  lstep s t = Some (lkeep s t (ldone th (lheld th) 1)) /\
+  let s' := lkeep s t (ldone th (lheld th) 1) in
+  lc s' = lc s /\ lcap s' = lcap s /\ lacq s' = lacq s /\ lrel s' = lrel s /\ lrogue s' = lrogue s /\
+  lholders s' = lholders s /\ linbody s' = linbody s /\
+  (forall u, u <> t -> nth_error (lthreads s') u = nth_error (lthreads s) u).
+Proof. exact lim_ctx_cancel_l. Qed.
+Print Assumptions ctx_cancel_changes_no_capacity.
+
+(* History level, all schedules: for clients that send requests (handlers return or panic) and
+   cancel request contexts in any order, the permits outstanding are exactly the requests whose
+   handler has not returned - cancelled or not - and never more than n.  ([is_req] admits
+   [LReq _] and [LCancel _]; maxconns_idle_means_zero, maxconns_return_never_fails,
+   maxconns_unlimited and capacity_restored_limit hold for such scripts too.) *)
+Theorem ctx_cancel_history : forall n scripts sched,
+  Forall (Forall is_req) scripts ->
+  let s := lexec n scripts sched in
+  lrogue s = false /\ lc s = linbody s /\ linbody s <= n.
+Proof. exact lim_ctx_history_l. Qed.
+Print Assumptions ctx_cancel_history.
+
 (* TaskRunner.Wait returns only when no slot is taken, no task goroutine is live (spawned,
    running, or not yet cleaned up - by return or by panic) and no Schedule is pending *)
 Theorem wait_means_idle_taskrunner : forall n scripts sched t th s',
@@ -427,4 +455,14 @@ Proof. vm_compute. reflexivity. Qed.
 Example ex_maxconns_unlimited :
   let s := lexec 3 [[LReq false]; [LReq true]; [LReq false]] [0; 1; 2] in
   (linbody s, map lres (lthreads s)) = (3, [[]; []; []]).
+Proof. vm_compute. reflexivity. Qed.
+
+(* n = 1: the client of the request inside goes away (thread 1 cancels thread 0's context); the
+   handler stays inside, the probe that follows is refused; after the handler returned a request
+   gets in *)
+Example ex_ctx_cancel :
+  let s1 := lexec 1 [[LReq false]; [LCancel 0; LReq false; LReq false]] [0; 1; 1] in
+  let s2 := lexec 1 [[LReq false]; [LCancel 0; LReq false; LReq false]] [0; 1; 1; 0; 1] in
+  (linbody s1, lc s1, map lres (lthreads s1), linbody s2, map lres (lthreads s2)) =
+  (1, 1, [[]; [1; 0]]%Z, 1, [[1]; [1; 0]]%Z).
 Proof. vm_compute. reflexivity. Qed.
